@@ -460,7 +460,10 @@ class ApplyLinks(Processor):
         resnames = set(nx.get_node_attributes(molecule, "resname").values())
         for link in tqdm(force_field.links):
             link_resnames = _get_link_resnames(link)
-            if not _resnames_match(resnames, link_resnames) or not attributes_match(molecule.meta, link.molecule_meta):
+            # a link that names no residue at all is not restricted to any residue
+            if link_resnames and not _resnames_match(resnames, link_resnames):
+                continue
+            if not attributes_match(molecule.meta, link.molecule_meta):
                 continue
 
             # we only use the order because each order needs to be
